@@ -22,7 +22,7 @@ def plan(tier, seed):
 
 def floors(tier):
     return {"evaluations": 1500, "strata": ["no-bounds", "both-bounds-fit", "both-bounds-unfit", "single-layer", "multi-layer", "stub-stub-neighbours", "near-touching", "non-integer-widths", "layer>=100", "deeper-layer"],
-            "events": {"Force.compute": 1000, "removeOverlap": 1500}, "distinct_nontrivial": 300}
+            "events": {"Force.compute": 1000, "layers_observed": 1500}, "distinct_nontrivial": 300}
 
 
 def worker(ctx, shard):
